@@ -45,6 +45,7 @@ type pathCtx struct {
 	fi   *FuncInfo
 	seen map[types.Object]bool
 	keepContext bool // do not drop variables of run-constant "context" types
+	noParams    bool // do not expand parameters through call sites
 }
 
 // pathsOf returns the access paths an expression depends on.
@@ -83,7 +84,7 @@ func (pc *pathCtx) pathsOf(e ast.Expr, depth int, out map[string]bool) {
 			}
 			return true
 		})
-		if rangedOver != nil && depth < 6 {
+		if rangedOver != nil && depth < 24 {
 			sub := map[string]bool{}
 			pc.pathsOf(rangedOver, depth+1, sub)
 			for p := range sub {
@@ -98,16 +99,58 @@ func (pc *pathCtx) pathsOf(e ast.Expr, depth int, out map[string]bool) {
 		if pc.seen[obj] {
 			return // already being expanded (x = append(x, …))
 		}
+		// a parameter: what the callers pass
+		if pi := paramIndex(pc.fi, obj); pi >= 0 && depth < 24 && !pc.noParams {
+			found := false
+			viaCallers := map[string]bool{}
+			pc.seen[obj] = true
+			for _, caller := range sortedFuncs(pc.w) {
+				cinfo := caller.Pkg.TypesInfo
+				ast.Inspect(caller.Decl.Body, func(y ast.Node) bool {
+					call, ok := y.(*ast.CallExpr)
+					if !ok || calleeOf(cinfo, call) != pc.fi.Obj || pi >= len(call.Args) {
+						return true
+					}
+					found = true
+					sub := &pathCtx{w: pc.w, fi: caller, seen: pc.seen, keepContext: pc.keepContext}
+					sub.pathsOf(call.Args[pi], depth+1, viaCallers)
+					return true
+				})
+			}
+			delete(pc.seen, obj)
+			if found {
+				if len(viaCallers) == 0 {
+					out[obj.Name()] = true
+				}
+				for p := range viaCallers {
+					out[p] = true
+				}
+				return
+			}
+		}
 		defs := allDefs(info, pc.fi.Decl, obj)
-		if len(defs) == 0 || depth >= 6 {
+		if len(defs) == 0 || depth >= 24 {
 			out[obj.Name()] = true
 			return
 		}
 		pc.seen[obj] = true
+		sub := map[string]bool{}
 		for _, d := range defs {
-			pc.pathsOf(d, depth+1, out)
+			pc.pathsOf(d, depth+1, sub)
 		}
 		delete(pc.seen, obj)
+		if len(sub) == 0 {
+			// assigned constants only: the value depends on what controls the assignments (switch tags, conditions)
+			for _, ce := range controlExprs(info, pc.fi.Decl, obj) {
+				pc.pathsOf(ce, depth+1, sub)
+			}
+		}
+		if len(sub) == 0 {
+			out[obj.Name()] = true // derived from run-constant context only: a root of its own
+		}
+		for p := range sub {
+			out[p] = true
+		}
 	case *ast.SelectorExpr:
 		if _, isPkg := info.Uses[identOf(v.X)].(*types.PkgName); isPkg {
 			return
@@ -182,6 +225,67 @@ func (pc *pathCtx) pathsOf(e ast.Expr, depth int, out map[string]bool) {
 		}
 	case *ast.FuncLit:
 	}
+}
+
+// controlExprs: switch tags and if conditions enclosing the assignments to obj.
+func controlExprs(info *types.Info, fd *ast.FuncDecl, obj types.Object) []ast.Expr {
+	var out []ast.Expr
+	var stack []ast.Node
+	ast.Inspect(fd, func(n ast.Node) bool {
+		if n == nil {
+			stack = stack[:len(stack)-1]
+			return false
+		}
+		stack = append(stack, n)
+		as, ok := n.(*ast.AssignStmt)
+		if !ok {
+			return true
+		}
+		assigns := false
+		for _, l := range as.Lhs {
+			if id := identOf(l); id != nil && objOf(info, id) == obj {
+				assigns = true
+			}
+		}
+		if !assigns {
+			return true
+		}
+		for _, anc := range stack {
+			switch a := anc.(type) {
+			case *ast.SwitchStmt:
+				if a.Tag != nil {
+					out = append(out, a.Tag)
+				}
+			case *ast.TypeSwitchStmt:
+				switch x := a.Assign.(type) {
+				case *ast.AssignStmt:
+					out = append(out, x.Rhs[0].(*ast.TypeAssertExpr).X)
+				case *ast.ExprStmt:
+					out = append(out, x.X.(*ast.TypeAssertExpr).X)
+				}
+			case *ast.IfStmt:
+				out = append(out, a.Cond)
+				if init, ok := a.Init.(*ast.AssignStmt); ok {
+					out = append(out, init.Rhs...)
+				}
+			}
+		}
+		return true
+	})
+	return out
+}
+
+func paramIndex(fi *FuncInfo, obj types.Object) int {
+	i := 0
+	for _, f := range fi.Decl.Type.Params.List {
+		for _, nm := range f.Names {
+			if fi.Pkg.TypesInfo.Defs[nm] == obj {
+				return i
+			}
+			i++
+		}
+	}
+	return -1
 }
 
 // allDefs: right-hand sides of `x = e`, `x := e`, `x += e`, `x[i] = e`.
